@@ -128,7 +128,7 @@ func (t *Term) dcs(it vtref.Item) {
 		}
 		if ok {
 			t.send("xtgettcap", "\x1bP1+r"+data+"="+strings.ToUpper(hex.EncodeToString([]byte(val)))+"\x1b\\")
-		} else if t.Caps.RGB || t.Caps.Smulx {
+		} else if t.Caps.RGB || t.Caps.Smulx || t.Caps.DECRPMAbsent != 0 {
 			// a terminal that implements XTGETTCAP answers unknown names with 0+r
 			t.send("xtgettcap", "\x1bP0+r"+data+"\x1b\\")
 		}
